@@ -1,11 +1,12 @@
 #!/usr/bin/env python3
-"""Re-run the checks against every kept seeded breakage (/verif/seeded/*/patch.diff) in a scratch worktree of /repo
-(never in /repo itself). usage: seeds.py [--all-checks] [seed ...]   exit 0 iff every seed is caught by its own property's check."""
+"""Re-run the checks against every kept seeded breakage (/verif/seeded/*/patch.diff; with --helpers the violations
+hidden in extracted helpers under /verif/helper_mutants/*/patch.diff) in a scratch worktree of /repo
+(never in /repo itself). usage: seeds.py [--helpers] [--all-checks] [seed ...]   exit 0 iff every seed is caught by its own property's check."""
 import json, os, subprocess, sys, glob, shutil, tempfile
 V = os.path.dirname(os.path.dirname(os.path.abspath(__file__)))
 allc = '--all-checks' in sys.argv
 names = [a for a in sys.argv[1:] if not a.startswith('--')]
-seeds = sorted(glob.glob(os.path.join(V, 'seeded', '*', 'patch.diff')))
+seeds = sorted(glob.glob(os.path.join(V, 'helper_mutants' if '--helpers' in sys.argv else 'seeded', '*', 'patch.diff')))
 if names:
     seeds = [s for s in seeds if os.path.basename(os.path.dirname(s)) in names]
 subprocess.check_call([os.path.join(V, 'run.sh'), '--build'])
